@@ -482,6 +482,9 @@ func (e *Env) index(x, i SVal) SVal {
 		if tb := e.p.tableOfSlice(x.T); tb != nil {
 			return SVal{T: tb.valTerm(i.T), Typ: u.Elem()}
 		}
+		if t := e.p.tableElem(x.T, i.T); t != nil {
+			return SVal{T: t, Typ: u.Elem()}
+		}
 		h := e.p.elemHeap(u.Elem())
 		return SVal{T: At(Select(e.cur.H(e.p, h), SBase(x.T)), SOff(x.T), i.T), Typ: u.Elem()}
 	case *types.Basic:
@@ -897,6 +900,15 @@ func (e *Env) call(x SCall) SVal {
 	case "alloc":
 		argn(0)
 		return SVal{T: e.cur.alloc, Typ: tInt}
+	}
+	if strings.HasPrefix(x.Fn, "visited") && len(x.Fn) > len("visited") {
+		// visited<n>(k): the ghost visited set of the map-range loop with ordinal n
+		if v, ok := e.vars["$vis"+x.Fn[len("visited"):]]; ok {
+			argn(1)
+			k := e.elab(x.Args[0])
+			ks, _, _ := v.T.Sort.arrayParts()
+			return SVal{T: Select(v.T, coerce(k.T, ks)), Typ: tBool}
+		}
 	}
 	if pf, ok := e.p.pures[x.Fn]; ok {
 		return e.pureCall(pf, x)
